@@ -114,6 +114,40 @@ def stepBad (s : State) : Label → Option State
     if s.guards[i]? = some .early then some { s with guards := s.guards.set i .notified } else none
   | l => step s l
 
+/-- the same transition system with the `Notify` semantics as a PARAMETER: `ready epoch e` says
+    whether a `Notified` created when `e` calls of `notify_waiters` had been made is complete
+    when `epoch` calls have been made.  `step` is `stepN` at tokio's documented semantics
+    `tokioReady` (`Proofs/Counter.lean: stepN_tokio`). -/
+def stepN (ready : Nat → Nat → Bool) (s : State) : Label → Option State
+  | .wake =>
+    match s.waiter with
+    | .awaiting e => if ready s.epoch e then some { s with waiter := .rearming } else none
+    | _ => none
+  | l => step s l
+
+/-- tokio 1.49 `Notify`: complete iff `notify_waiters` has been called since the creation -/
+def tokioReady (epoch e : Nat) : Bool := epoch != e
+
+/-- a `Notify` that loses one notification (negative control for the hypothesis) -/
+def lossyReady (epoch e : Nat) : Bool := decide (e + 1 < epoch)
+
+/-- negative control for the ORDER inside `wait_guards`: the `Notified` is created only AFTER
+    the count check (`while strong_count > 1 { let n = notify.notified(); n.await }`).
+    Program points reused: `start` = about to check the count, `rearming` = count seen > 1,
+    about to create the `Notified`, `awaiting e` = awaiting the `Notified` created at epoch e. -/
+def stepLate (s : State) : Label → Option State
+  | .check =>
+    match s.waiter with
+    | .start => if holders s = 0 then some { s with waiter := .done } else some { s with waiter := .rearming }
+    | _ => none
+  | .arm => none
+  | .rearm => if s.waiter = .rearming then some { s with waiter := .awaiting s.epoch } else none
+  | .wake =>
+    match s.waiter with
+    | .awaiting e => if s.epoch ≠ e then some { s with waiter := .start } else none
+    | _ => none
+  | l => step s l
+
 /-- run an interleaving (a list of labels); `none` if some step is not enabled -/
 def runWith (st : State → Label → Option State) (s : State) : List Label → Option State
   | [] => some s
@@ -123,6 +157,8 @@ def runWith (st : State → Label → Option State) (s : State) : List Label →
 
 def run := runWith step
 def runBad := runWith stepBad
+def runLate := runWith stepLate
+def runN (ready : Nat → Nat → Bool) := runWith (stepN ready)
 
 /-- labels of the waiter's own code (one of them at most is enabled in any state) -/
 def Label.isWaiter : Label → Bool
